@@ -45,7 +45,7 @@ def work(item):
         ob['check'] = 'tot = sum(b["EXT_FX__NET_"+c]*b["EXT_XR__"+c] for c in %r); bad = tot != 0; print("numeraire-valued FX sum", float(tot))' % (terms,)
     rec['obs'].append(ob)
     # (iii) paired flows only -> numeraire position zero
-    if 'gold' not in plan.features:
+    if 'gold' not in plan.features and 'numeraire-sector' not in plan.features:
         nn = S.var(fx.GetVariableName('NET_NUMERAIRE'), 'b')
         v, m = su.entail(nn == 0)
         ob = {'kind': 'numeraire-zero', 'what': 'NET_NUMERAIRE = 0 (paired flows only)', 'verdict': v}
